@@ -73,6 +73,23 @@ func c13Decorate(r *rand.Rand, in *DataInput) {
 			}
 		}
 	}
+	// a type that only an unrelated (recursive, with a listed sub-package) package replaces: it occurs in these
+	// signatures and must stay as it is
+	for _, s := range srcs {
+		if chosen[s.Pkg+"."+s.Name] {
+			continue
+		}
+		in.DecoyReplace = &ReplaceJ{FromPkg: s.Pkg, FromName: s.Name, To: c13Targets[0]}
+		for i := range in.Ifaces {
+			for j := range in.Ifaces[i].Methods {
+				m := &in.Ifaces[i].Methods[j]
+				if m.From == "" && r.Intn(2) == 0 {
+					m.Params = append([]VarJ{{Name: "dp", Type: s}}, m.Params...)
+				}
+			}
+		}
+		break
+	}
 	// Go: parameters (and results) are all named or all unnamed
 	for i := range in.Ifaces {
 		for j := range in.Ifaces[i].Methods {
